@@ -900,6 +900,10 @@ class SimulationObject(TreeClass, ABC):
                 return True
             if o_start <= s_end <= o_end:
                 return True
+            # neither end of this object's interval lies inside the other's, but the other may lie
+            # entirely inside this one (e.g. a point source placed inside a device)
+            if s_start <= o_start and o_end <= s_end:
+                return True
         return False
 
     def __eq__(
